@@ -278,13 +278,14 @@ pub fn check(pid: &str, seed: u64) -> Value {
                     if v.len() == 8 { nontrivial += 1; if let Some(w) = c03(&v) { failures.push(json!({"clause": "C03", "components": t, "load_matching": lm, "what": w})); } }
                 }
                 "C14" => {
-                    let steps_n = t.lines().next().map(|l| l.split(',').filter(|x| x.trim().parse::<f32>().is_ok()).count()).unwrap_or(1).max(1);
+                    let steps_n = t.parse::<cteepbd::Components>().map(|c| c.num_steps()).unwrap_or(1).max(1);
                     for k in [0.0f32, 0.5, 1.0] {
                         evals += 1;
                         let e0 = match run(&tcase(t, k, 1.0, lm)) { Ok(e) => e, Err(_) => continue };
                         nontrivial += 1;
-                        for d in [0.5f32, 5.0] {
-                            let more = format!("{}\n9,PRODUCCION,EL_INSITU,{}", t, std::iter::once(format!("{}", d)).chain(std::iter::repeat("0".to_string())).take(steps_n).collect::<Vec<_>>().join(","));
+                        for (d, pos) in [(0.5f32, 0usize), (5.0, 0), (10.0, 1), (10.0, 2), (10000.0, 0)] {
+                            if pos >= steps_n { continue; }
+                            let more = format!("{}\n9,PRODUCCION,EL_INSITU,{}", t, (0..steps_n).map(|i| if i == pos { format!("{}", d) } else { "0".to_string() }).collect::<Vec<_>>().join(","));
                             evals += 1;
                             if let Ok(e1) = run(&tcase(&more, k, 1.0, lm)) {
                                 let (a0, a1, b0, b1) = (e0.balance.we.a, e1.balance.we.a, e0.balance.we.b, e1.balance.we.b);
